@@ -167,6 +167,25 @@ def validate(files, wd, spec="RefTrace"):
     return parallel(go, files)
 
 
+def stream_validate(files, wd):
+    """C20 output stream: converts each trace to the token trace of spec/StatusStream.tla and validates it.
+    Returns per file (viol dict with `l` mapped back to the harness trace line, tlc result)."""
+    import stream
+
+    def go(pair):
+        sp, tp = pair
+        stp = tp + ".stream"
+        n = stream.convert(tp, stp)
+        if n == 0:
+            return {"stats": {}, "viol": []}, {"states": 0, "distinct": 0}
+        (d, r), = validate([(sp, stp)], wd, spec="StatusStream")
+        src = [json.loads(line).get("src", 0) for line in open(stp)]
+        for v in d["viol"]:
+            v["l"] = src[v["l"] - 1] if 0 < v["l"] <= len(src) else 0
+        return d, r
+    return parallel(go, files)
+
+
 def locate(trace_path, line_no):
     """Finds the execution containing 1-based line_no: returns (scenario id, run, choices, event)."""
     sc = None
@@ -194,7 +213,7 @@ def summarize_event(ev):
     return json.dumps(keep)[:300]
 
 
-def engine_check(pid, fams, tier_, maxruns, level_note="", props=None, extra_cov=None, level="model_checking", h2=None, design=None, impl=False):
+def engine_check(pid, fams, tier_, maxruns, level_note="", props=None, extra_cov=None, level="model_checking", h2=None, design=None, impl=False, stream=False):
     """Runs the pipeline and reports for property pid.  Returns exit code."""
     t0 = time.time()
     sd = seed()
@@ -221,6 +240,7 @@ def engine_check(pid, fams, tier_, maxruns, level_note="", props=None, extra_cov
             files2, h2execs = run_h2(scen2, wd, h2.get("maxruns", 4))
             files = files + files2
         results = validate(files, wd)
+        sres = stream_validate(h1files, wd) if stream else None
         dres = design_mc(wd, sd, **design) if design else None
         ires = impl_conformance(h1files, wd) if impl else None
         known = {k["id"]: k for k in load_known_findings() if k.get("status") == "open" and pid in k.get("properties", [])}
@@ -229,6 +249,14 @@ def engine_check(pid, fams, tier_, maxruns, level_note="", props=None, extra_cov
         states = distinct = 0
         n_v = 0
         samples = []
+        sstats = Counter()
+        if sres:
+            # the stream monitors' violations join those of the engine monitors of the same trace file
+            for k, (d2, r2) in enumerate(sres):
+                sstats.update(d2["stats"])
+                results[k][0]["viol"].extend(d2["viol"])
+                results[k][1]["states"] += r2["states"]
+                results[k][1]["distinct"] += r2["distinct"]
         for (sp, tp), (d, r) in zip(files, results):
             stats.update(d["stats"])
             states += r["states"]
@@ -260,7 +288,7 @@ def engine_check(pid, fams, tier_, maxruns, level_note="", props=None, extra_cov
                 samples.append({"scenario": json.loads(open(sp).readline()), "trace_events": evs[:40]})
         cov = {
             "states": states + (dres["distinct"] if dres else 0), "transitions": states + (dres["states"] if dres else 0),
-            "design_model": dres, "impl_conformance": ires,
+            "design_model": dres, "impl_conformance": ires, "output_stream": dict(sstats) if sres else None,
             "traces_validated_against_impl": stats["execs"],
             "samples": samples,
             "evaluations": stats["execs"],
@@ -295,6 +323,9 @@ def engine_replay(pid, path):
         if r.returncode != 0:
             raise Broken("h1 failed: " + r.stderr)
         (d, r2), = validate([(sp, tp)], wd)
+        if any(isinstance(h, dict) and h.get("printer") for h in rp["scenario"].get("hist", [])):
+            (d3, r3), = stream_validate([(sp, tp)], wd)
+            d["viol"].extend(d3["viol"])
         known = {k["id"]: k for k in load_known_findings() if k.get("status") == "open" and pid in k.get("properties", [])}
         found, known_hits = [], {}
         for v in d["viol"]:
